@@ -6,6 +6,7 @@
 package webrtc
 
 import (
+	"strconv"
 	"github.com/pion/datachannel"
 	"github.com/pion/sdp/v3"
 )
@@ -280,4 +281,19 @@ func specPreferredFor(remote, local RTPTransceiverDirection) bool {
 
 func specValidDirection(d RTPTransceiverDirection) bool {
 	return d >= RTPTransceiverDirectionSendrecv && d <= RTPTransceiverDirectionInactive
+}
+
+// ---- C09: numeric mids
+// specMidIsNumeric / specMidNumber: the mid is a non-empty decimal number (strconv.Atoi
+// succeeds) and its value.
+func specMidIsNumeric(mid string) bool {
+	_, err := strconv.Atoi(mid)
+
+	return mid != "" && err == nil
+}
+
+func specMidNumber(mid string) int {
+	n, _ := strconv.Atoi(mid)
+
+	return n
 }
